@@ -27,6 +27,15 @@ fn shapes<E: Elem>(out: &mut Out, bound: usize, rng: &mut Rng, sample: usize) {
                         }
                     }
                 }
+                // every vector (and one past the end) through iterator adaptors, all four families
+                for axis in ["rows", "cols"] {
+                    let al = if axis == "rows" { nr } else { nc };
+                    for k in 0..=al {
+                        for fam in ["views", "viewsmut", "nth", "nthmut"] {
+                            w.adapt(out, 0, fam, axis, k);
+                        }
+                    }
+                }
                 for kind in ["row", "col", "row_mut", "col_mut"] {
                     let extent = if kind.starts_with("row") { nr } else { nc };
                     let vl = if kind.starts_with("row") { nc } else { nr };
@@ -53,6 +62,26 @@ pub fn run_c06(out: &mut Out, rng: &mut Rng, tier: Tier) -> String {
     shapes::<Tok>(out, bound, rng, sample);
     shapes::<u8>(out, 3, rng, 2);
     shapes::<()>(out, 3, rng, 2);
+    for &(nr, nc) in &LARGE[..3] {
+        for order in ORDERS {
+            out.case(&format!("views large shape={nr}x{nc}{}", ord_ch(order)));
+            out.nontrivial();
+            let mut w = World::<Tok>::new(out);
+            w.new_matrix(out, 0, order, nr, nc, 1);
+            for axis in ["rows", "cols"] {
+                w.views(out, 0, "views", axis, "-", "-");
+                w.views(out, 0, "viewsmut", axis, "B", "FB");
+                let al = if axis == "rows" { nr } else { nc };
+                for fam in ["views", "viewsmut", "nth", "nthmut"] { w.adapt(out, 0, fam, axis, al - 1); w.adapt(out, 0, fam, axis, al); }
+            }
+            for kind in ["row", "col", "row_mut", "col_mut"] {
+                let extent = if kind.starts_with("row") { nr } else { nc };
+                w.nth(out, 0, kind, extent - 1, "FB");
+                w.nth(out, 0, kind, extent, "-");
+            }
+            w.drop_reg(out, 0);
+        }
+    }
     shapes::<Z8>(out, 2, rng, 2);
     let s = snapshot();
     if s.double_drops > 0 || s.live != 0 {
@@ -62,6 +91,6 @@ pub fn run_c06(out: &mut Out, rng: &mut Rng, tier: Tier) -> String {
     format!(
         "every shape 0..={bound} x 0..={bound} (all shapes with exactly one zero dimension included) x both orders: the four outer families iter_rows / iter_cols / iter_rows_mut / iter_cols_mut, outer and inner iterators each consumed by the patterns front / back / alternating / back-back-front \
          (all pattern pairs in thorough, a 1/{sample} sample plus front-front in quick), and iter_nth_row / iter_nth_col / iter_nth_row_mut / iter_nth_col_mut for every n in 0..=extent+1 and usize::MAX, usize::MAX/2+1, 2^32; token, 1-byte, zero-sized (align 1 and 8) elements. \
-         Oracle: exactly nrows / ncols vectors, len() before every call, every item is the element at its logical coordinate by value and by address (get()), IndexOutOfBounds exactly for invalid n. A case = one matrix with all its views"
+         Every vector additionally through iterator adaptors on fresh iterators (nth, nth_back, skip + step_by, take + rev, rev + skip, last, count) in all four families. Oracle: exactly nrows / ncols vectors, len() before every call, every item is the element at its logical coordinate by value and by address (get()), IndexOutOfBounds exactly for invalid n. A case = one matrix with all its views"
     )
 }
